@@ -249,6 +249,112 @@ pub fn build(front: Front, kv: &Kv) -> Result<Vec<u8>, String> {
     }
 }
 
+/// a small map over a tiny alphabet: the same node shapes recur from build to build, at different addresses
+pub fn tiny_map(r: &mut crate::rng::Rng) -> Kv {
+    let alpha = [b'a', b'b', b'k', b'x', b'z'];
+    let n = 1 + r.usize(9);
+    let mut m: std::collections::BTreeMap<Vec<u8>, u64> = Default::default();
+    for _ in 0..n {
+        let l = r.usize(4);
+        let k: Vec<u8> = (0..l).map(|_| *r.pick(&alpha)).collect();
+        m.insert(k, if r.chance(1, 3) { 0 } else { r.below(40) });
+    }
+    m.into_iter().collect()
+}
+
+fn plain_build(which: usize, kv: &Kv) -> Result<Vec<u8>, String> {
+    match which % 3 {
+        0 => build(Front::RawMemoryInsert, kv),
+        1 => build(Front::MapInsert, kv),
+        _ => {
+            if kv.iter().all(|(_, v)| *v == 0) {
+                build(Front::SetInsert, kv)
+            } else {
+                build(Front::MapExtendIter, kv)
+            }
+        }
+    }
+}
+
+/// SCENARIO "series": `n` small builds one after another on ONE fresh thread through the plain entry points (no hook geometry), every
+/// 7th builder abandoned half-way. Returns (what was inserted, what the builder produced) per finished build.
+pub fn series_on_one_thread(seed: u64, n: usize) -> Vec<(Kv, Result<Vec<u8>, String>)> {
+    std::thread::spawn(move || {
+        let mut r = crate::rng::Rng::new(seed, 0x5e21e5);
+        let mut out = vec![];
+        for i in 0..n {
+            let kv = tiny_map(&mut r);
+            if i % 7 == 3 {
+                let mut b = Builder::memory();
+                for (k, v) in kv.iter().take(1 + kv.len() / 2) {
+                    let _ = b.insert(k, *v);
+                }
+                let _ = b.insert("", 1); // rejected unless nothing was inserted
+                drop(b);
+                continue;
+            }
+            let res = std::panic::catch_unwind(|| plain_build(i, &kv)).unwrap_or_else(|_| Err("the build panicked".into()));
+            out.push((kv, res));
+        }
+        out
+    })
+    .join()
+    .unwrap_or_default()
+}
+
+/// SCENARIO "migration": a thread P finishes `p` builds, starts one more and hands the half-filled builder to a FRESH thread Q, which
+/// finishes it and then runs `q` builds of its own; optionally Q hands a half-filled builder back to P. Builders are Send.
+pub fn migration(seed: u64, p: usize, q: usize) -> Vec<(Kv, Result<Vec<u8>, String>)> {
+    std::thread::spawn(move || {
+        let mut r = crate::rng::Rng::new(seed, 0x316a);
+        let mut out = vec![];
+        for i in 0..p {
+            let kv = tiny_map(&mut r);
+            let res = std::panic::catch_unwind(|| plain_build(i, &kv)).unwrap_or_else(|_| Err("the build panicked".into()));
+            out.push((kv, res));
+        }
+        let moving = tiny_map(&mut r);
+        let mut b = Builder::memory();
+        let half = moving.len() / 2;
+        for (k, v) in moving.iter().take(half) {
+            let _ = b.insert(k, *v);
+        }
+        let rest: Kv = moving[half..].to_vec();
+        let mut r2 = crate::rng::Rng::new(seed, 0x316b);
+        let q_results = std::thread::spawn(move || {
+            let mut out = vec![];
+            let fin = std::panic::catch_unwind(std::panic::AssertUnwindSafe(move || {
+                for (k, v) in &rest {
+                    e(b.insert(k, *v))?;
+                }
+                e(b.into_inner())
+            }))
+            .unwrap_or_else(|_| Err("finishing the migrated builder panicked".into()));
+            out.push((None, fin));
+            for i in 0..q {
+                let kv = tiny_map(&mut r2);
+                let res = std::panic::catch_unwind(|| plain_build(i + 1, &kv)).unwrap_or_else(|_| Err("the build panicked".into()));
+                out.push((Some(kv), res));
+            }
+            out
+        })
+        .join()
+        .unwrap_or_default();
+        for (kv, res) in q_results {
+            out.push((kv.unwrap_or_else(|| moving.clone()), res));
+        }
+        // and P goes on building after the hand-over
+        for i in 0..3 {
+            let kv = tiny_map(&mut r);
+            let res = std::panic::catch_unwind(|| plain_build(i + 2, &kv)).unwrap_or_else(|_| Err("the build panicked".into()));
+            out.push((kv, res));
+        }
+        out
+    })
+    .join()
+    .unwrap_or_default()
+}
+
 /// HISTORY for the thread that is about to run judged operations: none of the properties allows an operation to depend on what the
 /// thread (or process) did before, so the monitors interleave their judged work with unrelated library use whose traces a
 /// stateful implementation (thread-locals, statics, pools, caches keyed by address) would carry over: builders abandoned after a
